@@ -5,7 +5,7 @@ COQ_TARGET = "C14"
 TRUSTED = ["datetime.strptime('%H:%M') and str(timedelta) are modelled (Model/ScheduleTools.v strptime_HM, timedelta_str)"]
 ASSUMPTIONS = ["arguments are HH:MM strings; other spellings are compared with the model and not judged"]
 RULE = ("pairs of clock strings: all (s, s), (s, s+1), (s, s-1), the edges 00:00 / 23:59 against every minute, random pairs "
-        "(thorough: all 2 073 600 pairs against the Spec formula), one-digit spellings and malformed strings against the model; SwitcherSchedule objects created in sequence with colliding slot ids, their duration read twice; pairs under zones with DST on transition days (virtual clock); "
+        "(thorough: all 2 073 600 pairs against the Spec formula), one-digit spellings and malformed strings against the model; schedules listed by the parser from records whose timestamps carry seconds and fall on transition nights; SwitcherSchedule objects created in sequence with colliding slot ids, their duration read twice; pairs under zones with DST on transition days (virtual clock); "
         "non-trivial = distinct pairs with start != end")
 REQUIREMENT = "calc_duration(HH:MM, HH:MM) = H:MM:SS of ((end - start) mod 1440) minutes; equal times give 0:00:00"
 
@@ -60,6 +60,22 @@ def run(tier, rnd, out):
         mo = lib.run_model([lib.req("duration", c["start"], c["end"]) for c in zc]); ex = lib.run_model([lib.req("duration_spec", c["start"], c["end"]) for c in zc])
         lib.differential(out, "under-zones-on-transition-days", zc, io, mo, ex, lambda c: "zone %s now %d calc_duration(%r, %r)" % (c["zone"], c["now"], c["start"], c["end"]),
                          nontrivial=lambda c: c["start"] != c["end"], sample=lambda c: c, classify=lambda c, i: c["zone"])
+    # schedules that arrive through the parser: the duration is that of the listed start and end times, whatever seconds or zone
+    # rules the device's timestamps carry
+    from props import c10
+    for zone in ["Europe/London", "America/St_Johns"] if tier == "quick" else world.ZONES_QUICK:
+        lc = [c10.gen_case(rnd, zone, now) for now in world.interesting_instants(rnd, zone, 40 if tier == "quick" else 300)]
+        for c in lc:
+            for r in c["recs"]:
+                if r[2] % 2 or r[2] > 254: r[2] = 2 * (r[2] % 127 + 1)          # masks the parser accepts
+        msgs = lib.run_model([lib.req("schedules_encode", bytes.fromhex(c["hdr"]), c["recs"], bytes.fromhex(c["tail"])) for c in lc])
+        listed = world.zone_job(zone, "schedules_nodisplay", [{"now": c["now"], "msg": m} for c, m in zip(lc, msgs)])
+        rows = [r.split(",") for t in listed if t and t != "raised" for r in t.split("|")]
+        rows = [r for r in rows if len(r) >= 6]
+        rc = [{"zone": zone, "start": r[3], "end": r[4]} for r in rows]
+        lib.differential(out, "schedules-listed-by-the-parser", rc, ["ok " + r[5] for r in rows], None,
+                         lib.run_model([lib.req("duration_spec", r[3], r[4]) for r in rows]), lambda c: "zone %s: listed schedule %s - %s" % (c["zone"], c["start"], c["end"]),
+                         nontrivial=lambda c: c["start"] != c["end"], sample=lambda c: c, classify=lambda c, i: "listed/" + c["zone"])
     if tier == "thorough":
         bad = None; n = 0
         for s in range(1440):
@@ -75,7 +91,7 @@ def run(tier, rnd, out):
 
 def replay(rp, out):
     c = rp["input"]
-    if "slot" in c:                      # a sequence of schedule objects: the whole quick run is the replay
+    if "slot" in c or rp.get("stream") == "schedules-listed-by-the-parser":       # a sequence of objects / a listing: the whole quick run is the replay
         import random
         run("quick", random.Random(int(rp.get("seed", 1))), out); return
     a, b = c["start"], c["end"]
